@@ -272,14 +272,31 @@ const _: (/* conversions */) = {
     }
     
     impl From<base::Node> for Node {
-        fn from(mut base: base::Node) -> Self {
+        fn from(base: base::Node) -> Self {
+            Node::finalize(base, None)
+        }
+    }
+
+    impl Node {
+        fn finalize(mut base: base::Node, _parent_fangses: Option<&base::FangsList>) -> Self {
+            /* a node opening a new fang scope (a mount point) must keep its own pattern:
+               requests under it that match nothing have to be caught here, with its fangs */
+            #[cfg(feature="__rt_native__")]
+            let opens_fang_scope = _parent_fangses.is_some_and(|p| {
+                base.fangses.inherit(p);
+                !p.is_same_as(&base.fangses)
+            });
+
             /* skip compression on edge runtimes */
             #[cfg(feature="__rt_native__")]
             /* compress: merge single-child static pattern and compress routing tree */
-            while base.children.len() == 1
+            while !opens_fang_scope
+               && base.children.len() == 1
                && base.handler.is_none()
                && base.pattern.as_ref().is_none_or(|p| p.is_static())
                && base.children[0].pattern.as_ref().unwrap(/* not root */).is_static()
+               /* never merge nodes of different fang scopes (e.g. a mount point and its parent) */
+               && base.children[0].fangses.is_same_as(&base.fangses)
             {
                 let child = base.children.pop().unwrap(/* base.children.len() == 1 */);
                 base.children = child.children;
@@ -303,6 +320,10 @@ const _: (/* conversions */) = {
 
             #[cfg(feature="openapi")] let has_handler = base.handler.is_some();
 
+            let children = base.children.into_iter()
+                .map(|child| Node::finalize(child, Some(&base.fangses)))
+                .collect::<Vec<_>>().leak();
+
             let proc = base.fangses.clone().into_proc_with(base.handler.unwrap_or(Handler::default_not_found()));
             #[cfg(feature="openapi")] let (proc, openapi_operation) = (proc.0, has_handler.then_some(proc.1));
 
@@ -311,7 +332,7 @@ const _: (/* conversions */) = {
 
             Node {
                 pattern:  base.pattern.map(Pattern::from).unwrap_or(Pattern::Static(b"")),
-                children: base.children.into_iter().map(Node::from).collect::<Vec<_>>().leak(),
+                children,
 
                 proc,
                 catch,
